@@ -35,6 +35,11 @@ def mentions_taint(e, tainted):
         if is_source_call(s): return True
         return any(mentions_taint(a, tainted) for a in (s.get('args') or [])) or \
                (k == 'CXXMemberCallExpr' and mentions_taint(s.get('obj'), tainted) and A.callee_name(s) not in ('size', 'length', 'chunk_size', 'capacity'))
+    if k == 'ConditionalOperator':
+        # the value is one of the two arms; the condition only selects (no size flows from it)
+        return mentions_taint(s.get('then'), tainted) or mentions_taint(s.get('else'), tainted)
+    if k == 'BinaryOperator' and s.get('op') in ('<', '>', '<=', '>=', '==', '!=', '&&', '||'):
+        return False        # a truth value does not carry a length
     if k == 'DeclRefExpr':
         return s.get('id') in tainted
     if k == 'MemberExpr':
